@@ -3,6 +3,7 @@ C10 - Registry verification stops at the first good signature, within the limit.
 Property theorems only; the model is in `Model/C10.lean`.
 -/
 import NotationModel.Model.C10
+import NotationModel.Generated.SrcVerify
 
 namespace NotationModel.C10
 
@@ -325,5 +326,256 @@ the decision: two inputs that differ only there are observed identically -/
 theorem concretisation_irrelevant (i : Input) (v : String) (f : List Nat) :
     run { i with refVariant := v, flavors := f } = run i := by
   simp [run, errObs]
+
+/-! ### tie to the translated source -/
+
+namespace Tie
+open NotationModel.Src NotationModel.Src.«notation»
+
+/-- the oracles of one `notation.Verify` call: what the repository and the verifier answer -/
+structure World where
+  fetch : ocispec.Descriptor → SigBlob × ocispec.Descriptor × Option GoLite.Err
+  verify : ocispec.Descriptor → SigBlob → VerifierVerifyOptions → Option VerificationOutcome × Option GoLite.Err
+  art : ocispec.Descriptor
+  ar : String                 -- opts.ArtifactReference, constant over the call
+
+/-- the options the verifier sees for signature `d`: the media type fetched from the registry -/
+def World.optsFor (w : World) (d : ocispec.Descriptor) : VerifierVerifyOptions :=
+  { ArtifactReference := w.ar, SignatureMediaType := (w.fetch d).2.1.MediaType }
+
+def World.answer (w : World) (d : ocispec.Descriptor) := w.verify w.art (w.fetch d).1 (w.optsFor d)
+
+/-- the model's classification of a listed signature, read off the oracles -/
+def World.kind (w : World) (d : ocispec.Descriptor) : Sig :=
+  if (w.fetch d).2.2.isSome then .unfetchable
+  else if (w.answer d).2.isNone then .good else .bad
+
+/-- result of the callback on one page, abstractly -/
+inductive PR
+  | cont (n : Nat) (errs : List (Option GoLite.Err)) (smt : String)
+  | done (n : Nat) (d : ocispec.Descriptor) (errs : List (Option GoLite.Err))
+  | fetchErr (n : Nat) (errs : List (Option GoLite.Err)) (smt : String)
+  | verifierBroken (n : Nat) (d : ocispec.Descriptor) (errs : List (Option GoLite.Err))  -- error with a nil outcome
+  | exceeded (n : Nat) (errs : List (Option GoLite.Err)) (smt : String)
+
+def pageSpec (w : World) (M : Nat) : List ocispec.Descriptor → Nat → List (Option GoLite.Err) → String → PR
+  | [], n, errs, smt => if n ≥ M then .exceeded n errs smt else .cont n errs smt
+  | d :: p, n, errs, smt =>
+    if n ≥ M then .exceeded n errs smt
+    else if (w.fetch d).2.2.isSome then .fetchErr (n + 1) errs smt
+    else if (w.answer d).2.isSome then
+      if (w.answer d).1.isNone then .verifierBroken (n + 1) d errs
+      else pageSpec w M p (n + 1) (errs ++ [(GoLite.deref (w.answer d).1).Error]) (w.fetch d).2.1.MediaType
+    else .done (n + 1) d errs
+
+abbrev Res := Option GoLite.Err × Int × Bool × List (Option VerificationOutcome) × List (Option GoLite.Err) × VerifierVerifyOptions
+
+def PR.toRes (w : World) (outs0 : List (Option VerificationOutcome)) (errExc : GoLite.Err) : PR → Res
+  | .cont n errs smt => (none, n, false, outs0, errs, ⟨w.ar, smt⟩)
+  | .done n d errs => (some errDoneVerification, n, true, [(w.answer d).1], errs, w.optsFor d)
+  | .fetchErr n errs smt => (some (GoLite.errT "ErrorSignatureRetrievalFailed" ""), n, false, outs0, errs, ⟨w.ar, smt⟩)
+  | .verifierBroken n d errs => ((w.answer d).2, n, false, outs0, errs, w.optsFor d)
+  | .exceeded n errs smt => (some errExc, n, false, outs0, errs, ⟨w.ar, smt⟩)
+
+abbrev St := Nat × List (Option GoLite.Err) × String
+
+def step (w : World) (M : Nat) (t : St) (d : ocispec.Descriptor) : Except PR St :=
+  if t.1 ≥ M then .error (.exceeded t.1 t.2.1 t.2.2)
+  else if (w.fetch d).2.2.isSome then .error (.fetchErr (t.1 + 1) t.2.1 t.2.2)
+  else if (w.answer d).2.isSome then
+    if (w.answer d).1.isNone then .error (.verifierBroken (t.1 + 1) d t.2.1)
+    else .ok (t.1 + 1, t.2.1 ++ [(GoLite.deref (w.answer d).1).Error], (w.fetch d).2.1.MediaType)
+  else .error (.done (t.1 + 1) d t.2.1)
+
+abbrev LoopSt := Option Res × Int × Bool × List (Option VerificationOutcome) × List (Option GoLite.Err) × VerifierVerifyOptions
+
+abbrev absSt (w : World) (outs0 : List (Option VerificationOutcome)) (t : St) : LoopSt :=
+  (none, (t.1 : Int), false, outs0, t.2.1, ⟨w.ar, t.2.2⟩)
+
+def stopSt (w : World) (outs0 : List (Option VerificationOutcome)) (errExc : GoLite.Err) (t : St) (e : PR) : LoopSt :=
+  match e with
+  | .exceeded _ _ _ => absSt w outs0 t
+  | e => (some (e.toRes w outs0 errExc), (e.toRes w outs0 errExc).2)
+
+/-- what follows the loop in the callback -/
+def post (M : Nat) (errExc : GoLite.Err) (s : LoopSt) : Res :=
+  match s.1 with
+  | some r => r
+  | none => if s.2.1 ≥ (M : Int) then (some errExc, s.2) else (none, s.2)
+
+theorem post_foldE (w : World) (M : Nat) (errExc : GoLite.Err) (outs0 : List (Option VerificationOutcome))
+    (p : List ocispec.Descriptor) (t : St) :
+    post M errExc (match GoLite.foldE (step w M) p t with
+      | .ok t' => absSt w outs0 t'
+      | .error (t', e) => stopSt w outs0 errExc t' e) =
+      (pageSpec w M p t.1 t.2.1 t.2.2).toRes w outs0 errExc := by
+  induction p generalizing t with
+  | nil =>
+    simp only [GoLite.foldE, pageSpec, post, absSt]
+    by_cases h : t.1 ≥ M
+    · have : ((t.1 : Int) ≥ (M : Int)) := by omega
+      simp [h, this, PR.toRes]
+    · have : ¬ ((t.1 : Int) ≥ (M : Int)) := by omega
+      simp [h, this, PR.toRes]
+  | cons d p ih =>
+    simp only [GoLite.foldE, pageSpec, step]
+    by_cases h : t.1 ≥ M
+    · have : ((t.1 : Int) ≥ (M : Int)) := by omega
+      simp [h, this, post, stopSt, absSt, PR.toRes]
+    · by_cases hf : (w.fetch d).2.2.isSome = true
+      · simp [h, hf, post, stopSt, PR.toRes]
+      · by_cases hv : (w.answer d).2.isSome = true
+        · by_cases ho : (w.answer d).1.isNone = true
+          · simp [h, hf, hv, ho, post, stopSt, PR.toRes]
+          · simp only [h, hf, hv, ho, if_false, if_true, Bool.false_eq_true]
+            exact ih (t.1 + 1, t.2.1 ++ [(GoLite.deref (w.answer d).1).Error], (w.fetch d).2.1.MediaType)
+        · simp [h, hf, hv, post, stopSt, PR.toRes]
+
+/-- TIE (translated source): the callback `notation.Verify` hands to `ListSignatures`, translated from
+notation.go on every run (`Generated/SrcVerify.lean`, with the variables it shares with the
+enclosing function as explicit state and the repository / verifier as oracles), computes on EVERY
+page, from every state, exactly the abstract page result `pageSpec`: attempts counted against the
+limit before each fetch, unfetchable -> retrieval error, verified -> done with exactly that outcome,
+failed -> next, limit reached -> exceeded. `pageSpec_is_model_page` below identifies `pageSpec`
+with the model's `page`. -/
+theorem source_Verify_callback_refines_model (w : World) (M : Nat) (errExc : GoLite.Err) (outs0 : List (Option VerificationOutcome))
+    (p : List ocispec.Descriptor) (n : Nat) (errs : List (Option GoLite.Err)) (smt : String) :
+    verifyPage (M : Int) w.fetch w.verify w.art errExc (n : Int) false outs0 errs ⟨w.ar, smt⟩ p =
+      (pageSpec w M p n errs smt).toRes w outs0 errExc := by
+  unfold verifyPage
+  simp only [Id.run]
+  rw [GoLite.forIn_eq_foldE' _ (step w M) (absSt w outs0) (stopSt w outs0 errExc) ?h _ _ (n, errs, smt) rfl]
+  case h =>
+    intro d t
+    by_cases h : t.1 ≥ M
+    · have hd : decide ((t.1 : Int) ≥ (M : Int)) = true := by simp; omega
+      simp [hd, h, step, stopSt, absSt]
+    · have hd : decide ((t.1 : Int) ≥ (M : Int)) = false := by simp; omega
+      by_cases hf : (w.fetch d).2.2.isSome = true
+      · simp [hd, h, hf, step, stopSt, absSt, PR.toRes]
+      · by_cases hv : (w.answer d).2.isSome = true
+        · by_cases ho : (w.answer d).1.isNone = true
+          · have hv' := hv; have ho' := ho
+            simp only [World.answer, World.optsFor] at hv' ho'
+            simp [hd, h, hf, hv, ho, hv', ho', step, stopSt, absSt, PR.toRes, World.answer, World.optsFor]
+          · have hv' := hv; have ho' := ho
+            simp only [World.answer, World.optsFor] at hv' ho'
+            simp [hd, h, hf, hv, ho, hv', ho', step, stopSt, absSt, PR.toRes, World.answer, World.optsFor]
+        · have hv' := hv
+          simp only [World.answer, World.optsFor] at hv'
+          simp [hd, h, hf, hv, hv', step, stopSt, absSt, PR.toRes, World.answer, World.optsFor]
+  have := post_foldE w M errExc outs0 p (n, errs, smt)
+  simp only [pure_bind]
+  cases hfe : GoLite.foldE (step w M) p (n, errs, smt) with
+  | ok t' =>
+    rw [hfe] at this
+    simp only [post, absSt] at this ⊢
+    rw [← this]
+    by_cases hge : (t'.1 : Int) ≥ (M : Int)
+    · simp [hge]; rfl
+    · simp [hge]; rfl
+  | error pe =>
+    obtain ⟨t', e⟩ := pe
+    rw [hfe] at this
+    cases e with
+    | exceeded a b c =>
+      simp only [post, stopSt, absSt] at this ⊢
+      rw [← this]
+      by_cases hge : (t'.1 : Int) ≥ (M : Int)
+      · simp [hge]; rfl
+      · simp [hge]; rfl
+    | cont a b c => simp only [post, stopSt] at this ⊢; rw [← this]; rfl
+    | done a b c => simp only [post, stopSt] at this ⊢; rw [← this]; rfl
+    | fetchErr a b c => simp only [post, stopSt] at this ⊢; rw [← this]; rfl
+    | verifierBroken a b c => simp only [post, stopSt] at this ⊢; rw [← this]; rfl
+
+/-! #### the abstract page result is the model's `page` -/
+
+inductive K | cont (n : Nat) | done | fetchErr | exceeded | verifierBroken
+  deriving DecidableEq, Repr
+
+def PR.k : PR → K
+  | .cont n _ _ => .cont n
+  | .done _ _ _ => .done
+  | .fetchErr _ _ _ => .fetchErr
+  | .verifierBroken _ _ _ => .verifierBroken
+  | .exceeded _ _ _ => .exceeded
+
+def kOf : Except Stop Nat → K
+  | .ok n => .cont n
+  | .error (.done _) => .done
+  | .error (.fetchErr _) => .fetchErr
+  | .error .exceeded => .exceeded
+
+theorem pageSpec_is_model_page (w : World) (M : Nat) (p : List ocispec.Descriptor)
+    (hv : ∀ d ∈ p, (w.answer d).2.isSome = true → (w.answer d).1.isSome = true)
+    (i n : Nat) (log : Log) (errs : List (Option GoLite.Err)) (smt : String) :
+    (pageSpec w M p n errs smt).k = kOf (page M (p.map w.kind) i n log).1 := by
+  induction p generalizing i n log errs smt with
+  | nil =>
+    simp only [pageSpec, List.map_nil, page]
+    by_cases h : n ≥ M <;> simp [h, PR.k, kOf]
+  | cons d p ih =>
+    simp only [pageSpec, List.map_cons, page]
+    by_cases h : n ≥ M
+    · simp [h, PR.k, kOf]
+    · simp only [h, if_false]
+      by_cases hf : (w.fetch d).2.2.isSome = true
+      · simp [hf, World.kind, PR.k, kOf]
+      · by_cases ha : (w.answer d).2.isSome = true
+        · have ho : (w.answer d).1.isNone = false := by
+            have := hv d (List.mem_cons_self) ha
+            cases hh : (w.answer d).1 <;> simp_all
+          have hn : (w.answer d).2.isNone = false := by
+            cases hh : (w.answer d).2 <;> simp_all
+          simp only [hf, ha, ho, World.kind, hn, if_false, if_true, Bool.false_eq_true]
+          exact ih (fun d' hd' => hv d' (List.mem_cons_of_mem _ hd')) _ _ _ _ _
+        · have hn : (w.answer d).2.isNone = true := by
+            cases hh : (w.answer d).2 <;> simp_all
+          simp [hf, ha, hn, World.kind, PR.k, kOf]
+
+/-! #### the statements after the listing -/
+
+/-- `notation.Verify` after `ListSignatures`: it succeeds exactly when the listing ended normally or
+by the "done" sentinel, at least one signature was processed and one verified; it then returns the
+RESOLVED descriptor and the outcomes collected by the callback -/
+theorem source_Verify_tail_refines_model (artifactRef : String) (art : ocispec.Descriptor) (errExc : GoLite.Err) (err : Option GoLite.Err)
+    (num : Int) (succ : Bool) (outs : List (Option VerificationOutcome)) (errs : List (Option GoLite.Err))
+    (herrs : (GoLite.errJoin errs).isSome = true) :
+    let r := verifyTail artifactRef art errExc err num succ outs errs
+    (r.2.2.isNone = ((err.isNone || err == some errDoneVerification) && num != 0 && succ)) ∧
+    (r.2.2.isNone = true → r = (art, outs, none)) := by
+  unfold verifyTail
+  simp only [Id.run, GoLite.errIs]
+  cases err with
+  | none =>
+    by_cases hn : num = 0
+    · simp [hn, GoLite.idPure, GoLite.errT]
+    · have hj : GoLite.errJoin errs ≠ none := by
+        intro h; simp [h] at herrs
+      cases succ <;> simp [hn, GoLite.idPure, herrs, hj]
+  | some e =>
+    by_cases hd : e = errDoneVerification
+    · subst hd
+      by_cases hn : num = 0
+      · simp [hn, GoLite.idPure, GoLite.errT]
+      · have hj : GoLite.errJoin errs ≠ none := by
+          intro h; simp [h] at herrs
+        cases succ <;> simp [hn, GoLite.idPure, herrs, hj]
+    · have : (some e == some errDoneVerification) = false := by simp [hd]
+      by_cases hx : (some e == some errExc) = true <;> simp [this, hx, GoLite.idPure, hd]
+
+/-- non-vacuity: the translated callback on a page [bad, good] with limit 3 stops at the second
+signature with the done sentinel, two attempts counted -/
+example :
+    let w : World := { fetch := fun d => (⟨d.Size.toNat⟩, { d with MediaType := "application/jose+json" }, none),
+                       verify := fun _ b _ => if b.id = 1 then (some ⟨1, none⟩, none) else (some ⟨b.id, some ⟨"bad"⟩⟩, some ⟨"bad"⟩),
+                       art := default, ar := "r" }
+    let d (k : Int) : ocispec.Descriptor := { MediaType := "m", Digest := "d", Size := k, Annotations := [] }
+    ((verifyPage 3 w.fetch w.verify w.art ⟨"ErrorVerificationFailed"⟩ 0 false [] [] ⟨"r", ""⟩ [d 0, d 1]).1,
+     (verifyPage 3 w.fetch w.verify w.art ⟨"ErrorVerificationFailed"⟩ 0 false [] [] ⟨"r", ""⟩ [d 0, d 1]).2.1) =
+      (some errDoneVerification, 2) := by decide
+
+end Tie
 
 end NotationModel.C10
